@@ -21,7 +21,7 @@ def run(ctx):
     thorough = ctx.tier == "thorough"
     ctx.model_check("MC_Fasta", "MC_Fasta_machine9" if thorough else "MC_Fasta_machine6", workers=8)
     ctx.model_check("MC_Fasta", "MC_Fasta_layout_t" if thorough else "MC_Fasta_layout_q", workers=16 if thorough else 8,
-                    heap="8g", timeout=3000)
+                    heap="12g" if ctx.tier == "thorough" else "8g", timeout=3000)
     # leg R
     r = ctx.model_check("MC_Fasta", "MC_Fasta_layout_emit", workers=4, count=False)
     cases = codec.emitted_cases(r["out"])
